@@ -165,6 +165,31 @@ void h_TPGF_getIndex(void)
   REACH("exit");
   if (VERIF_thrown) REACH("rejected"); else REACH("accepted");
 }
+/* ---- GreensFunction::getIndex (C01; here because this file has the FieldOperator model with Index): "Returns the 'bit' (index) of the
+ * operator C or CX": position 0 selects the annihilation operator C, position 1 the creation operator CX of <T c_i c^+_j>; any other
+ * position: std::logic_error (the extraction uses the pinned build flags, -DNDEBUG: assert(0) is compiled out).  Nothing is written.
+ * The declared return type is unsigned short while ParticleIndex is unsigned int: the result is the index modulo 2^16 -- the index itself for
+ * every index below 65536 (Fock states are 64-bit words, so every index pomerol can classify is below 64).  The first version of this
+ * contract demanded the untruncated index and failed for Index >= 65536: a contract that asks more than the declared type, corrected. */
+//@tu src/pomerol/GreensFunction.cpp
+//@struct Pomerol::GreensFunction only=C,CX embed=C,CX
+//@function Pomerol::GreensFunction::getIndex(unsigned long) const as GreensFunction_getIndex
+//@contract
+__CPROVER_requires(__CPROVER_is_fresh(self, sizeof(*self)) && !VERIF_thrown)
+__CPROVER_assigns(VERIF_thrown)
+__CPROVER_ensures(VERIF_thrown == (Position > 1))
+__CPROVER_ensures(!VERIF_thrown ==> __CPROVER_return_value == (unsigned short)(Position == 0 ? self->C.Index : self->CX.Index))
+//@end
+//@harness h_GF_getIndex enforce=GreensFunction_getIndex props=C01 reach=3 timeout=60 min_obl=20
+void h_GF_getIndex(void)
+{
+  struct GreensFunction *g; unsigned long pos;
+  VERIF_thrown = 0;
+  unsigned int r = GreensFunction_getIndex(g, pos);
+  REACH("exit");
+  if (VERIF_thrown) REACH("rejected"); else REACH("accepted");
+}
+//@tu src/pomerol/TwoParticleGF.cpp
 /* "Returns the number of current permutation in permutations3": for a permutation of 3 elements with its sign (= parity) the
  * result i satisfies permutations3[i] == in.  (For a value that is not in the table the code logs an error and returns 0.) */
 static inline int P3_parity(Permutation3 p)       /* +1 even, -1 odd: number of inversions */
